@@ -214,12 +214,38 @@ def rule_unmodifiable(ctx):
     for n in body_walk(fi.node):
         if isinstance(n, ast.Assign) and isinstance(n.targets[0], ast.Name) and norm(n.value).endswith("._id_contributing_properties"):
             lock_var = n.targets[0].id
-    ok = bool(loops) and lock_var is not None and lock_var in names_in(loops[0].iter) and any(
-        isinstance(s, ast.If) and norm(s.test) == "%s in kwargs" % norm(loops[0].target) for s in loops[0].body)
+    from ..forward import flow_of
+    fl = flow_of(fi)
+    kwp = fi.kwarg or "kwargs"
+    member = None
+    if loops:
+        for s_ in loops[0].body:
+            if isinstance(s_, ast.If) and isinstance(s_.test, ast.Compare) and len(s_.test.ops) == 1 and isinstance(s_.test.ops[0], ast.In) \
+                    and norm(s_.test.left) == norm(loops[0].target):
+                member = s_.test.comparators[0]
+    pr = fl.prov(member) if member is not None else None
+    ok = bool(loops) and lock_var is not None and lock_var in names_in(loops[0].iter) and pr is not None and kwp in pr.params
     run.check(ok, R, key(m.relpath, fi.qualname, "refused-set"), "the refused set is not (unmodifiable + SCO-locked) ∩ requested changes",
               file=m.relpath, line=fi.node.lineno, function=fi.qualname,
-              expected="for prop in chain(STIX_UNMOD_PROPERTIES, sco_locked_props): if prop in kwargs: ...",
+              expected="for prop in chain(STIX_UNMOD_PROPERTIES, sco_locked_props): if prop in <the requested changes>: ...",
               found=short(loops[0], 160) if loops else None)
+    # every channel through which the constructor takes property values is a requested change: _STIXBase.__init__ pops
+    # 'custom_properties' and looks EVERY property name (spec-defined ones included) up in ChainMap(kwargs, custom_props)
+    init = prog.func("stix2.base::_STIXBase.__init__")
+    chained = any(isinstance(c, ast.Call) and norm(c.func).endswith("ChainMap") and len(c.args) == 2 for c in body_walk(init.node)) and any(
+        isinstance(c, ast.Call) and norm(c.func).endswith(".pop") and c.args and isinstance(c.args[0], ast.Constant)
+        and c.args[0].value == "custom_properties" for c in body_walk(init.node))
+    if not chained:
+        run.info(R, key(m.relpath, fi.qualname, "every-channel-of-change"), "the constructor no longer merges custom_properties into "
+                 "the property lookup: not judged")
+    else:
+        okc = pr is not None and "custom_properties" in [c_ for c_ in pr.consts if isinstance(c_, str)]
+        run.check(okc, R, key(m.relpath, fi.qualname, "every-channel-of-change"),
+                  "the unmodifiable / identifier-contributing test looks at the keyword names only, but the constructor also takes "
+                  "property values from the `custom_properties` argument (for spec-defined names too): "
+                  "new_version(custom_properties={'created_by_ref': X}) sets the creator of the new version", file=m.relpath,
+                  line=loops[0].lineno if loops else fi.node.lineno, function=fi.qualname,
+                  expected="names in kwargs AND in kwargs['custom_properties'] are tested", found=norm(member) if member is not None else None)
     # SCO lock under version == 5 from cls._id_contributing_properties
     asg = [n for n in body_walk(fi.node) if isinstance(n, ast.Assign) and isinstance(n.targets[0], ast.Name)
            and norm(n.value).endswith("._id_contributing_properties")]
